@@ -38,6 +38,12 @@ impl Cryptor {
 
     /// Derive a key as specified for version 1.  Note that this may take 10s of ms.
     fn derive_key(salt: impl AsRef<[u8]>, secret: &Secret) -> Result<aead::LessSafeKey> {
+        #[cfg(gothenburgbitfactory_taskchampion_verif)]
+        if let Some(k) = crate::server::verif::keymemo::get(salt.as_ref(), secret.as_ref()) {
+            let unbound_key = aead::UnboundKey::new(&aead::CHACHA20_POLY1305, &k)
+                .map_err(|e| anyhow::anyhow!("error while creating AEAD key: {e}"))?;
+            return Ok(aead::LessSafeKey::new(unbound_key));
+        }
         let mut key_bytes = vec![0u8; aead::CHACHA20_POLY1305.key_len()];
         pbkdf2::derive(
             pbkdf2::PBKDF2_HMAC_SHA256,
@@ -46,6 +52,8 @@ impl Cryptor {
             secret.as_ref(),
             &mut key_bytes,
         );
+        #[cfg(gothenburgbitfactory_taskchampion_verif)]
+        crate::server::verif::keymemo::put(salt.as_ref(), secret.as_ref(), &key_bytes);
 
         let unbound_key = aead::UnboundKey::new(&aead::CHACHA20_POLY1305, &key_bytes)
             .map_err(|e| anyhow::anyhow!("error while creating AEAD key: {e}"))?;
